@@ -645,4 +645,12 @@ def main():
 
 
 if __name__ == "__main__":
-    main()
+    try:
+        main()
+    except SystemExit:
+        raise
+    except BaseException as e:  # noqa: BLE001 - an unexpected exception must never read as a verdict (exit 1)
+        import traceback
+        traceback.print_exc()
+        print("HARNESS-FAILURE: unexpected %s: %s" % (type(e).__name__, str(e)[:300]), flush=True)
+        sys.exit(2)
